@@ -129,6 +129,7 @@ func newResults(ctx context.Context) *Results {
 // dropped, and Err returns the context error.
 func (r *Results) Next() bool {
 	if r.iterDone {
+		verifQ("next.false.again", r, nil, 0, 0)
 		return false
 	}
 
@@ -136,6 +137,7 @@ func (r *Results) Next() bool {
 	// termination drops undelivered rows rather than draining them.
 	select {
 	case <-r.ctx.Done():
+		verifQ("next.term", r, nil, 0, 0)
 		return r.terminate()
 	default:
 	}
@@ -143,6 +145,7 @@ func (r *Results) Next() bool {
 	if r.pendingIdx < len(r.pending) {
 		r.current = r.pending[r.pendingIdx]
 		r.pendingIdx++
+		verifQ("next.pending", r, nil, len(r.pending)-r.pendingIdx, 0)
 		return true
 	}
 
@@ -155,14 +158,17 @@ func (r *Results) Next() bool {
 			// deliberately continued past them because partial results are
 			// valuable for search.
 			r.finish(r.joinedErrs())
+			verifQ("next.complete", r, nil, 0, 0)
 			return false
 		}
 		// Workers only deliver non-empty batches.
 		r.pending = batch
 		r.pendingIdx = 1
 		r.current = batch[0]
+		verifQ("next.batch", r, nil, len(batch)-1, 0)
 		return true
 	case <-r.ctx.Done():
+		verifQ("next.term", r, nil, 1, 0)
 		return r.terminate()
 	}
 }
@@ -233,6 +239,7 @@ func (r *Results) Stats() QueryStats {
 func (r *Results) Close() error {
 	r.closeOnce.Do(func() {
 		r.cancel()
+		verifQ("close.first", r, nil, 0, 0)
 		<-r.done
 
 		// A query whose caller context was canceled before Close decided its
@@ -248,7 +255,9 @@ func (r *Results) Close() error {
 			r.err = err
 		}
 		r.mu.Unlock()
+		verifQ("close.finish", r, nil, 0, 0)
 	})
+	verifQ("close.ret", r, nil, 0, 0)
 	return nil
 }
 
@@ -267,6 +276,7 @@ func (r *Results) terminate() bool {
 		err = r.joinedErrs()
 	}
 	r.finish(err)
+	verifQ("next.term.finish", r, nil, 0, 0)
 	return false
 }
 
@@ -303,20 +313,26 @@ func (r *Results) deliver(slot *querySlot, batch []map[string]any) error {
 	select {
 	case r.rowChan <- batch:
 		r.rowsMatched.Add(int64(len(batch)))
+		verifQ("bw.deliver.fast", r, nil, len(batch), 0)
 		return nil
 	default:
 	}
 
 	slot.release()
+	verifQ("bw.deliver.park", r, nil, len(batch), 0)
 	select {
 	case r.rowChan <- batch:
 	case <-r.ctx.Done():
+		verifQ("bw.deliver.cancel", r, nil, 0, 0)
 		return r.ctx.Err()
 	}
 	r.rowsMatched.Add(int64(len(batch)))
+	verifQ("bw.deliver.slow", r, nil, len(batch), 0)
 	if !slot.acquire() {
+		verifQ("bw.reacq", r, nil, 0, 0)
 		return r.ctx.Err()
 	}
+	verifQ("bw.reacq", r, nil, 1, 0)
 	return nil
 }
 
